@@ -80,7 +80,7 @@ func loadFindings(path string) []Finding {
 				f.Obligation = fld[11:]
 			}
 		}
-		f.Rest = line
+		f.Rest = strings.TrimSpace(strings.TrimPrefix(line, "property="+f.Property))
 		out = append(out, f)
 	}
 	return out
@@ -436,6 +436,7 @@ func cmdCheck(args []string) {
 			if f := matchFinding(findings, spec.ID, rw.o.Name); f != nil {
 				lines = append(lines, "KNOWN-FINDING: property="+spec.ID+" "+f.Rest)
 				known++
+				nClaimed-- // a listed finding is reported, not counted among the obligations proved
 				continue
 			}
 			violations++
@@ -455,6 +456,17 @@ func cmdCheck(args []string) {
 		if f := matchFinding(findings, spec.ID, rw.o.Name); f != nil {
 			lines = append(lines, "KNOWN-FINDING: property="+spec.ID+" "+f.Rest)
 			known++
+			continue
+		}
+		// an obligation that is not claimed for this property and is a listed finding of another
+		// property (the function is shared): nothing new to say here
+		otherProp := false
+		for i := range findings {
+			if findings[i].Kind == "finding" && findings[i].Obligation == rw.o.Name {
+				otherProp = true
+			}
+		}
+		if otherProp {
 			continue
 		}
 		path, reproduced := cr.replay(rw.r, rw.o, replayDir)
